@@ -105,7 +105,7 @@ def run_case(case):
 
 def nontrivial(case):
     d = case['msg']
-    return any(d[n] != R.DEFAULTS[n] and not (n == 'data' and len(d[n]) == 0) for n in d if n not in ('type',))
+    return any(d[n] != R.DEFAULTS[n] and not (n == 'data' and len(d[n]) == 0) for n in d if n not in ('type', 'time'))
 
 
 # ---- exhaustive enumeration -------------------------------------------------------------------------------------
@@ -141,7 +141,7 @@ def enum_shard(rec, shard):
         d['time'] = tm
         fs = check_msg(d, conts, tm)
         rec.evals += 1
-        if any(d[n] != R.DEFAULTS[n] for n in d if n not in ('type',)):
+        if any(d[n] != R.DEFAULTS[n] for n in d if n not in ('type', 'time')):
             rec.nt_enum += 1
         rec.classes[t] += 1
         if fs:
